@@ -89,6 +89,10 @@ def run_case(t, inc):
                 # every third case: the linking Section is described with the same text as its target
                 return odml.Section(name=s["name"][h], type=s["type"][h], definition="def-" + (tgt if salt % 3 == 1 else h),
                                     reference="ref-" + h if n % 2 else None, **kw)
+            if k == "prop" and not inc:
+                # some Properties have no name of their own (named by their id); not with includes: the included file is a second
+                # build of the tree, whose unnamed objects carry other ids and therefore other names
+                return CL.mk_salted(salt, unnamed=True)(h, k, s)
             return CL.mk(h, k, s, salt)
 
         objs = W.build(st, mk=mk)
